@@ -24,7 +24,12 @@ use std::{
 
 pub const BIG_ALLOC: usize = 256 << 20;
 pub const ABORT_ALLOC: usize = 16 << 30;
-const MAX_PARKED: u32 = 64;
+const MAX_PARKED: u32 = 32;
+/// A case whose process-wide live heap would exceed this is cut short like a big allocation.
+pub const LIVE_CAP: usize = 1 << 30;
+/// A worker process holding more than this after a parked thread is recycled at once.
+const RECYCLE_LIVE: usize = 96 << 20;
+static LIVE: std::sync::atomic::AtomicUsize = std::sync::atomic::AtomicUsize::new(0);
 pub const CASE_DEADLINE: Duration = Duration::from_secs(2);
 
 // slot states (parent <-> child)
@@ -78,7 +83,7 @@ pub struct GuardAlloc;
 impl GuardAlloc {
     #[inline]
     fn check(&self, size: usize) {
-        if size >= BIG_ALLOC {
+        if size >= BIG_ALLOC || (size >= 4096 && LIVE.load(Relaxed).saturating_add(size) > LIVE_CAP) {
             self.big(size);
         }
     }
@@ -117,17 +122,28 @@ impl GuardAlloc {
 unsafe impl GlobalAlloc for GuardAlloc {
     unsafe fn alloc(&self, l: Layout) -> *mut u8 {
         self.check(l.size());
+        LIVE.fetch_add(l.size(), Relaxed);
         unsafe { System.alloc(l) }
     }
     unsafe fn dealloc(&self, p: *mut u8, l: Layout) {
+        LIVE.fetch_sub(l.size(), Relaxed);
         unsafe { System.dealloc(p, l) }
     }
     unsafe fn alloc_zeroed(&self, l: Layout) -> *mut u8 {
         self.check(l.size());
+        LIVE.fetch_add(l.size(), Relaxed);
         unsafe { System.alloc_zeroed(l) }
     }
     unsafe fn realloc(&self, p: *mut u8, l: Layout, n: usize) -> *mut u8 {
-        self.check(n);
+        if n > l.size() {
+            self.check(n - l.size());
+            LIVE.fetch_add(n - l.size(), Relaxed);
+        } else {
+            LIVE.fetch_sub(l.size() - n, Relaxed);
+        }
+        if n >= BIG_ALLOC {
+            self.check(n);
+        }
         unsafe { System.realloc(p, l, n) }
     }
 }
@@ -381,7 +397,7 @@ fn child_main<S: Stages>(st: &'static S, slot: &'static Slot, log_path: PathBuf)
                                 if start >= end {
                                     break 'chunk;
                                 }
-                                if parked >= MAX_PARKED {
+                                if parked >= MAX_PARKED || LIVE.load(Relaxed) > RECYCLE_LIVE {
                                     // hand the rest of the chunk back and let the parent fork a fresh worker
                                     flush_classes(stage);
                                     slot.start.store(start, Relaxed);
@@ -395,7 +411,7 @@ fn child_main<S: Stages>(st: &'static S, slot: &'static Slot, log_path: PathBuf)
                     }
                 }
                 flush_classes(stage);
-                if parked >= MAX_PARKED {
+                if parked >= MAX_PARKED || (parked > 0 && LIVE.load(Relaxed) > RECYCLE_LIVE) {
                     slot.start.store(end, Relaxed);
                     slot.state.store(RECYCLE, Release);
                     unsafe { libc::_exit(0) };
